@@ -89,9 +89,16 @@ def observe(path, v3):
         out["tree"] = None
     else:
         with wt.lock_read():
+            repo = wt.branch.repository
+            parents = wt.get_parent_ids()
             out["tree"] = {
                 "changes": bz.iter_changes_canon(wt, wt.basis_tree()),
-                "parents": [p.decode() for p in wt.get_parent_ids()]}
+                "parents": [p.decode() for p in parents],
+                # pending merges stay usable: their revisions are still there
+                "parents_present": [repo.has_revision(p) for p in parents],
+                "conflicts": sorted(
+                    (c.typestring, c.path, getattr(c, "conflict_path", None))
+                    for c in wt.conflicts())}
     out["fs"] = snap_fs(path)
     return out
 
@@ -129,6 +136,15 @@ def run(case, env):
             others = [r["id"] for r in spec["revs"] if r["id"] not in anc]
             if others:
                 wt.set_parent_ids([bz.enc(tip), bz.enc(others[0])])
+        if case.get("conflicts"):
+            # unresolved conflicts are part of the tree's pending state
+            from breezy.bzr import conflicts as _c
+            files = sorted(p for p, v in bz.model_snapshot(m).items()
+                           if v[0] == "file")
+            cl = [_c.TextConflict(p) for p in files[:2]]
+            if files:
+                cl.append(_c.ContentsConflict(files[-1] + ".moved"))
+            wt.set_conflicts(cl)
     bz.age_files(path)
     action = case["action"]
     rich = src in RICH
@@ -248,7 +264,8 @@ def cases(draw):
                              "standalone", "use-shared", "stacked",
                              "unstacked"]), min_size=1, max_size=4))}
     return {"source": src, "spec": spec, "pending": pending,
-            "pending_merge": draw(st.sampled_from([False, False, True])),
+            "pending_merge": draw(st.sampled_from([False, True])),
+            "conflicts": draw(st.sampled_from([False, True])),
             "shared": draw(st.sampled_from([False, True])),
             "action": action}
 
